@@ -497,7 +497,7 @@ pub const C17: Check = Check {
            arrives within a generous watchdog one more update is made: a response that then carries v+2 is the witness \
            'waited for a further update' (violation), no response at all is inconclusive. Also: requests arriving while \
            the writer is parked between installing and notifying, requests with an outdated or foreign version (must \
-           return at once) and the blocking case (no response before the next update). distinct = scenario x outcome",
+           return at once), a client two versions behind whose missed updates cancel each other (must return at once) and the blocking case (no response before the next update). distinct = scenario x outcome",
     assumptions: &["a response within 3 s of the release counts as 'without waiting'; the verdict is the causal witness (v+2), not the delay"],
     shards: |_| 8,
     watchdog: |t| Duration::from_secs(t.pick(300, 3600)),
@@ -528,7 +528,7 @@ fn run_c17(ctx: &mut Ctx, rep: &mut Report) {
     let point = "notify.before_subscribe";
     for round in 0..rounds {
         if !ctx.time_left() { rep.note("time budget reached"); break }
-        let scenario = rng.usize(4);
+        let scenario = rng.usize(5);
         let v = u32::from(srv.history.read().serial());
         match scenario {
             0 | 1 => {
@@ -586,6 +586,30 @@ fn run_c17(ctx: &mut Ctx, rep: &mut Report) {
                         }
                     }
                     else { rep.inconclusive("notify request never answered, even after a further update"); }
+                }
+            }
+            4 => {
+                // Net-zero history: two updates that cancel each other (an item announced, then withdrawn again). A
+                // client presenting the serial from before both holds the same data as is served now, but not the
+                // served version: it must be answered at once.
+                let base = version_model(&mut rng, 5000 + round as u32);
+                k += 1;
+                if srv.install(&hooks, &base).is_err() { rep.inconclusive("update failed"); return }
+                let v0 = u32::from(srv.history.read().serial());
+                let mut plus = base.clone();
+                plus.origins.insert(wide_origin(2 * (7000 + round as u32), 65101));
+                if srv.install(&hooks, &plus).is_err() || srv.install(&hooks, &base).is_err() { rep.inconclusive("update failed"); return }
+                let now = u32::from(srv.history.read().serial());
+                if now != v0.wrapping_add(2) { rep.inconclusive("net-zero history did not advance the serial twice"); continue }
+                let t = format!("/json-delta/notify?session={session}&serial={v0}");
+                rep.eval();
+                match http_request(http, "GET", &t, &[], None, Duration::from_secs(5)) {
+                    Ok(r) => match notify_serial(&r) {
+                        Some((_, s)) if s == now => rep.class("net-zero-history|immediate"),
+                        other => rep.violation("C17/non-current-bad-answer", format!("{t}: answered {:?} (current {now})", other), json!({"target": t})),
+                    },
+                    Err(e) if e == "timeout" => rep.violation("C17/non-current-blocked/net-zero-history", format!("{t}: blocked although the served serial is {now} (the two updates since serial {v0} cancel each other, the version still differs)"), json!({"target": t, "served": now})),
+                    Err(e) => rep.inconclusive(format!("notify http: {e}")),
                 }
             }
             2 => {
